@@ -39,7 +39,7 @@ func (gen *generator) indexTopLevelEntities(old *ast.Module) error {
 			}
 			gen.old.comdatDefs[name] = entity
 		case *ast.GlobalDecl:
-			ident, err := giveUnnamedIdentID(globalIdent(entity.Name()), &id)
+			ident, err := giveUnnamedIdentID(entity.Name(), &id)
 			if err != nil {
 				return errors.WithStack(err)
 			}
@@ -49,7 +49,7 @@ func (gen *generator) indexTopLevelEntities(old *ast.Module) error {
 			gen.old.globals[ident] = entity
 			gen.old.globalOrder = append(gen.old.globalOrder, ident)
 		case *ast.IndirectSymbolDef:
-			ident, err := giveUnnamedIdentID(globalIdent(entity.Name()), &id)
+			ident, err := giveUnnamedIdentID(entity.Name(), &id)
 			if err != nil {
 				return errors.WithStack(err)
 			}
@@ -59,7 +59,7 @@ func (gen *generator) indexTopLevelEntities(old *ast.Module) error {
 			gen.old.globals[ident] = entity
 			gen.old.globalOrder = append(gen.old.globalOrder, ident)
 		case *ast.FuncDecl:
-			ident, err := giveUnnamedIdentID(globalIdent(entity.Header().Name()), &id)
+			ident, err := giveUnnamedIdentID(entity.Header().Name(), &id)
 			if err != nil {
 				return errors.WithStack(err)
 			}
@@ -69,7 +69,7 @@ func (gen *generator) indexTopLevelEntities(old *ast.Module) error {
 			gen.old.globals[ident] = entity
 			gen.old.globalOrder = append(gen.old.globalOrder, ident)
 		case *ast.FuncDef:
-			ident, err := giveUnnamedIdentID(globalIdent(entity.Header().Name()), &id)
+			ident, err := giveUnnamedIdentID(entity.Header().Name(), &id)
 			if err != nil {
 				return errors.WithStack(err)
 			}
@@ -110,9 +110,12 @@ func (gen *generator) indexTopLevelEntities(old *ast.Module) error {
 // The ID given in the input must be the next unused ID (unnamed globals are
 // numbered in order of occurrence); otherwise an error is returned, e.g. for a
 // repeated definition of @0.
-func giveUnnamedIdentID(ident ir.GlobalIdent, id *int64) (ir.GlobalIdent, error) {
+func giveUnnamedIdentID(name ast.GlobalIdent, id *int64) (ir.GlobalIdent, error) {
+	ident := globalIdent(name)
 	if ident.IsUnnamed() {
-		if ident.ID() != *id {
+		// The empty quoted name (`@""`) denotes an unnamed global without ID given
+		// in the input.
+		if name.Text() != `@""` && ident.ID() != *id {
 			return ident, errors.Errorf("invalid global ID, expected %s, got %s", enc.GlobalID(*id), enc.GlobalID(ident.ID()))
 		}
 		// Assign next unused ID to unnamed global identifier.
